@@ -455,7 +455,13 @@ pub fn cb_fn_name(def: &str, leaf: usize) -> String {
     format!("{}_cb{}", def.to_lowercase(), leaf)
 }
 
+/// `salt == BUILTIN_SKIP` marks the library's own `logos::skip` helper used as the callback
+pub const BUILTIN_SKIP: u32 = u32::MAX;
+
 fn cb_expr_of(p: &Pat, cb: &Cb, def: &str, leaf: usize) -> String {
+    if cb.salt == BUILTIN_SKIP {
+        return "logos::skip".to_string();
+    }
     match &p.cb_text {
         Some(t) => t.clone(),
         None => cb_expr(cb, def, leaf),
@@ -548,7 +554,7 @@ impl Def {
         let this = self.this_ty();
         for (leaf, p) in self.pats.iter().enumerate() {
             if let Some(cb) = &p.cb {
-                if !cb.inline {
+                if !cb.inline && cb.salt != BUILTIN_SKIP {
                     src.push_str(&format!(
                         "fn {}<'s>(lex: &mut Lexer<'s, {}>) -> {} {{ {} }}\n",
                         cb_fn_name(&self.name, leaf), this, self.cb_ret_type(cb.ret), self.cb_body(leaf)
